@@ -325,8 +325,9 @@ def run_items(prop, tier, seed, items, expected, verbose=False,
                     j['rtol'] = 1e-4
                     jobs.append(j)
                 for f, rr in zip(fails, eng.native(jobs)):
+                    cl0 = (rr.get('clauses') or [None])[0]
                     if rr.get('outcome') == 'return' and \
-                            rr.get('clauses') == [False]:
+                            (cl0 is False or (isinstance(cl0, str) and cl0.startswith('error'))):
                         robust.append(f)
                     elif f[3] == 'no-unlisted-exception' and \
                             str(rr.get('outcome')).startswith('raise:'):
@@ -371,7 +372,8 @@ def run_items(prop, tier, seed, items, expected, verbose=False,
         valid = eng.native_valid.get(key, 0)
         # lemma obligations carry a 'lemma:' marker in their names
         bases = (base + ':', '%s:lemma:%s:' % (ob.prop, key))
-        if valid >= 20 and not any(v.startswith(bases) for v in viol_names):
+        need = 8 if 'declared bounded' in (ob.detail or '') else 20
+        if valid >= need and not any(v.startswith(bases) for v in viol_names):
             ob.status = 'bounded-pass'
             ob.detail = ('%s; bounded stand-in: the clauses hold on %d native samples of the precondition domain '
                          '(random, domain corners, solver-completed); NOT proved' % (ob.detail, valid))
@@ -647,7 +649,7 @@ def main(argv=None):
     for ln in lines:
         print(ln)
     errors = res['errors']
-    n_bonly = sum(1 for o in obs if o.status == 'bounded-pass')
+    n_bonly = sum(1 for o in obs if o.status == 'bounded-pass' and 'declared bounded' not in (o.detail or ''))
     print('%s tier=%s obligations=%d discharged=%d known=%d violations=%d '
           'undecided=%d bounded_checks=%d errors=%d%s wall=%.1fs'
           % (prop, tier, n_obl, n_dis, len(known_hit),
@@ -664,7 +666,7 @@ def main(argv=None):
         if o.status == 'bounded':
             print('  NOT-PROVED %s: %s' % (o.name, o.detail))
     for o in obs:
-        if o.status == 'bounded-pass':
+        if o.status == 'bounded-pass' and 'declared bounded' not in (o.detail or ''):
             print('  BOUNDED-ONLY %s: %s' % (o.name, o.detail))
     for e in errors:
         print('  ERROR ' + e.splitlines()[0])
